@@ -115,6 +115,14 @@ func (st *State) havocHeap(key string) {
 		st.heaps[key] = st.c.fresh("H_" + key)
 		return
 	}
+	if key == "CC" {
+		// whatever else happened: a closed channel stays closed
+		old := st.heap(key, srt)
+		nw := st.c.freshConst("H_"+key, srt)
+		st.heaps[key] = nw
+		st.assume(fmt.Sprintf("(forall ((c!c Int)) (! (=> (select %s c!c) (select %s c!c)) :pattern ((select %s c!c))))", old, nw, nw))
+		return
+	}
 	st.heaps[key] = st.c.freshConst("H_"+key, srt)
 }
 
